@@ -116,6 +116,11 @@ func tagOf(jsonTag, api string) reflect.StructTag {
 	return reflect.StructTag(strings.Join(parts, " "))
 }
 
+// EmbedBase carries the ID of the "embedded" shapes
+type EmbedBase struct {
+	ID string `json:"id" api:"st"`
+}
+
 func declare(sh sShape) reflect.Type {
 	var sf []reflect.StructField
 	switch sh.ID {
@@ -141,6 +146,8 @@ func declare(sh sShape) reflect.Type {
 		sf = append(sf, reflect.StructField{Name: "ID", Type: reflect.TypeOf(""), Tag: tagOf("id", "rel,a,b,c")})
 	case "named-attr":
 		sf = append(sf, reflect.StructField{Name: "ID", Type: reflect.TypeOf(Label("")), Tag: tagOf("id", "attr")})
+	case "embedded": // the ID is a promoted field: it is declared in a struct that this one embeds
+		sf = append(sf, reflect.StructField{Name: "EmbedBase", Type: reflect.TypeOf(EmbedBase{}), Anonymous: true})
 	case "absent", "last":
 	}
 	for i, f := range sh.Fields {
